@@ -32,6 +32,7 @@ type GenParams struct {
 	FinalReopen            bool // end with a caught-up reopen
 	Idle                   bool // use idle merger cycles
 	NoPersistSteps         bool
+	CrossBias              bool     // inject "background step completes while the other one is parked mid-way" patterns after batches
 	SmallVals              bool     // no multi-KB values (keeps small batches small, for leveled compaction)
 	Lean                   bool     // no merger cycle without a new batch, no drain: an empty hand-over makes mossStore run a full (idle) compaction
 	PersistAfterBatchPct   int      // percentage of batches followed by a directed merge + persist
@@ -551,6 +552,21 @@ func GenProgram(r *Rng, prop string, cfg Config, gp GenParams) *Program {
 		}
 		handleSteps()
 		fresh = true
+		if gp.CrossBias && lower && i > 0 && r.Chance(1, 4) {
+			// base pending (merge without persist), more batches, then the
+			// merger parked right after its ingest while a whole persister
+			// round completes, then the merge proper
+			add(Step{K: "merge", A: "plain"})
+			add(Step{K: "batch", B: g.batch()})
+			if r.Chance(1, 2) {
+				add(Step{K: "batch", B: g.batch()})
+			}
+			add(Step{K: "merge", A: mergeKind(), P: mergerParks[r.Intn(len(mergerParks))]})
+			add(Step{K: "persist"})
+			add(Step{K: "resume", A: "merger"})
+			add(Step{K: "check"})
+			fresh = false
+		}
 		if gp.PersistAfterBatchPct > 0 && lower && r.Intn(100) < gp.PersistAfterBatchPct {
 			add(Step{K: "merge", A: "plain"})
 			add(Step{K: "persist"})
